@@ -46,7 +46,7 @@ def _pl(title, rule, quick_runs, thorough_runs, chunk=200):
         "title": title,
         "rule": rule,
         "tiers": {
-            "quick": {"runs": quick_runs, "budget_s": 50, "chunk": chunk, "recheck_every": 50, "minimise_s": 20},
+            "quick": {"runs": quick_runs, "budget_s": 45, "chunk": chunk, "recheck_every": 50, "minimise_s": 20},
             "thorough": {"runs": thorough_runs, "budget_s": 600, "chunk": chunk, "recheck_every": 200, "minimise_s": 60},
         },
         "real_components": PL_REAL,
@@ -61,7 +61,7 @@ def _rt(title, rule, quick_runs, thorough_runs, chunk=10):
         "title": title,
         "rule": rule,
         "tiers": {
-            "quick": {"runs": quick_runs, "budget_s": 55, "chunk": chunk, "recheck_every": 50, "minimise_s": 25},
+            "quick": {"runs": quick_runs, "budget_s": 45, "chunk": chunk, "recheck_every": 50, "minimise_s": 25},
             "thorough": {"runs": thorough_runs, "budget_s": 600, "chunk": chunk, "recheck_every": 200, "minimise_s": 90},
         },
         "real_components": RT_REAL,
@@ -76,8 +76,8 @@ SPECS = {
         "one runtime per seed: 0-6 bystander payloads, 1-3 failing payloads (flavour x failure kind x registration path x time), seeded thread schedule; "
         "non-trivial = at least one injected failure actually occurred while the runtime was up; "
         "distinct = distinct (multiset of (flavour, failure kind, registration), population size, stop mixed in, run mode, schedule-trace hash)",
-        1200,
-        60000,
+        6000,
+        600000,
     ),
     "C02": _rt(
         "Termination cancels every coroutine payload and finishes its cleanup first",
@@ -85,8 +85,8 @@ SPECS = {
         "(failure per flavour, two failures, SIGINT, stop(), shutdown() from a thread or a thread payload, payload-raised KeyboardInterrupt) at a seeded or marker-aligned instant; "
         "non-trivial = at least one coroutine payload was running when the trigger fired; "
         "distinct = distinct (trigger, multiset of running payload states, how the run call ended, schedule-trace hash)",
-        1200,
-        60000,
+        6000,
+        600000,
     ),
     "C03": _rt(
         "Every adopted payload and every service is started exactly once",
@@ -94,16 +94,16 @@ SPECS = {
         "from outside threads and from payloads of every flavour, services kept or dropped, >= 3 polling cycles before the quiescence mark, optionally a shutdown racing with the submissions "
         "(thorough: also submissions inside the launch window); non-trivial = the run reached its quiescence mark with the runtime still up, or an adoption overlapped a stop in progress; "
         "distinct = distinct (mode, multiset of (flavour, path, #args, #kwargs), how the run call ended, schedule-trace hash)",
-        1200,
-        60000,
+        5000,
+        500000,
     ),
     "C10": _rt(
         "execute hands the payload's outcome to the caller and leaves the runtime alone",
         "one runtime per seed: bystanders with heartbeats in every flavour, 1-8 execute calls (target flavour x calling context: outside thread, thread payload, coroutine payload of another flavour "
         "x outcome: None / falsy / truthy object / Exception subclass x argument lists), then a late adoption and a harness shutdown; "
         "non-trivial = at least one execute call completed; distinct = distinct (multiset of (target, caller, outcome), population, schedule-trace hash)",
-        1200,
-        60000,
+        5000,
+        500000,
     ),
     "C11": _rt(
         "Coroutine payloads of one flavour never run in parallel",
@@ -111,8 +111,8 @@ SPECS = {
         "0-3 thread payloads that sleep for seconds or block forever; overlap detector, loop/run/thread identity, heartbeat lateness; "
         "non-trivial = heartbeats ticked and (payloads arrived by more than two registration modes or a thread payload blocked); "
         "distinct = distinct (multiset of (flavour, path), modes per flavour, #blocked threads, schedule-trace hash)",
-        1000,
-        50000,
+        4000,
+        400000,
     ),
     "C12": _rt(
         "Runtime lifecycle: exclusive accept, shutdown always completes, restart possible",
@@ -120,8 +120,8 @@ SPECS = {
         "adoptions in flight), optionally a concurrent accept of another runner, and an end by shutdown() from a thread or a thread payload, SIGINT, a failing payload, or failure plus shutdown, "
         "timed on/around the polling instants of the service loop; non-trivial = at least one runner reached 'running' and was ended; "
         "distinct = distinct (sequence of (end kind, concurrent accept, population), schedule-trace hash)",
-        800,
-        40000,
+        4000,
+        400000,
     ),
     "C13": _rt(
         "The daemon runs its configured pipeline until stopped; failures set exit status",
@@ -129,16 +129,16 @@ SPECS = {
         "logging / extra plugin section; Python module with >>; shipped and instrumented elements, services of all flavours), one fault or none (13 kinds of configuration error, a service failing at a seeded "
         "time with a seeded kind), SIGINT at a seeded time, GC at seeded points; non-trivial = every run (a whole daemon life cycle); "
         "distinct = distinct (format, element classes and forms, fault, extras, exit status, schedule-trace hash)",
-        800,
-        40000,
+        4000,
+        400000,
     ),
     "C06": _pl(
         "Standardiser always keeps the forwarded demand within its limits",
         "one world per seed: a Standardiser with parameters from everything the constructor accepts (infinite / fractional limits, integral and fractional granularity) over a recording pool, "
         "1-60 operations (int and float demand writes biased onto the limits, reads, supply changes, outside demand changes, n-increments comparisons over frozen twin pools); exact dyadic arithmetic, "
         "Fraction reference; non-trivial = at least one write; distinct = distinct (set of active limits, demand type mode, op kinds used, length bucket)",
-        40000,
-        800000,
+        150000,
+        8000000,
     ),
     "C07": _pl(
         "Composite pools conserve demand and aggregate their children faithfully",
@@ -146,8 +146,8 @@ SPECS = {
         "1-40 operations (demand writes, child state changes, children appended / removed, reads); conservation, proportionality, share bounds, exact read-back, supply sum, convexity and documented fallbacks "
         "after every event (relative tolerance 1e-9 where the statement allows rounding); non-trivial = a demand write with at least one child; "
         "distinct = distinct (composite kind, #children bucket, weight class, op kinds used, length bucket)",
-        40000,
-        800000,
+        100000,
+        6000000,
     ),
     "C15": _pl(
         "FactoryPool spawns and releases just enough children",
@@ -155,16 +155,25 @@ SPECS = {
         "adjustments (demand writes, child supply / fitness changes, children disabling themselves, dropping the last reference to a released child, gc); dense sampling of short histories over small value "
         "alphabets plus random long ones; a snapshot after every adjustment is judged against the population before it; non-trivial = at least one adjustment spawned or shrank; "
         "distinct = distinct (#initial, #adjustments bucket, op kinds, #grow / #shrink adjustments, factory demands)",
-        30000,
-        600000,
+        20000,
+        1500000,
+    ),
+    "C16": _pl(
+        "Decorators are transparent except for what they are meant to change",
+        "one world per seed: a stack of depth 0-5 in any order of PoolDecorator, Logger (names, levels, templates over documented, deprecated and unknown fields), Standardiser and Buffer (its service "
+        "running under the virtual clock) over a recording pool; 1-40 timed operations (demand writes at the top, reads, pool state changes, outside demand changes); observational equivalence after every "
+        "event, log records checked for count, order relative to the pool write and field values; non-trivial = non-empty stack and at least one write; "
+        "distinct = distinct (stack kinds in order, op kinds, length bucket, #template probes)",
+        100000,
+        6000000,
     ),
     "C08": _pl(
         "Controllers move demand only in the documented direction and amount",
         "one world per seed: one controller (Linear, RelativeSupply, Stepwise via @stepwise/add/.s/direct, DemandSwitch over shipped and instrumented slave controllers) over a recording pool, "
         "1-60 regulation steps with pool states biased onto thresholds and one grid step around them; non-trivial = at least one step; "
         "distinct = distinct (controller, #steps bucket, parameter names, table size, construction path, whether a step sat exactly on a threshold)",
-        40000,
-        800000,
+        120000,
+        6000000,
     ),
     "C09": _pl(
         "Periodic services act once per interval",
@@ -172,7 +181,7 @@ SPECS = {
         "(writes / state changes before, on and after period boundaries) and a seeded trio batch order; "
         "non-trivial = at least one environment action landed within one grid step of a period boundary while the service ran >= 3 periods; "
         "distinct = distinct (service kind, parameters, script shape, batch-order digest)",
-        20000,
-        400000,
+        50000,
+        3000000,
     ),
 }
